@@ -15,7 +15,7 @@ crosses only contexts that share the handler's stack, nothing is dropped: the th
 the handler's stack, counted and reachable (no over-count) — the complement of the finding
 `unwind-across-estack`.
 -/
-import NeoModel.Proofs.VmAcctUnwind
+import NeoModel.Proofs.VmAcctBase
 import NeoModel.Proofs.VmAcctGas
 namespace NeoModel.VmAcct
 
@@ -424,12 +424,10 @@ theorem curOf_drop_shared : ∀ (k : Nat) (fs : List Frame) (base : List Item), 
 
 /-- **an exception that crosses only contexts sharing the handler's evaluation stack drops nothing**:
 the handler continues on the thrower's stack — the items the callee left are still there, below the
-exception — and the ghost list of `refs_exact_unwind` does not grow -/
+exception (stacks OWNED by dropped contexts are cleared: `unwindFrames`) -/
 theorem unwind_shared {s s' : St} {x : Item} {k : Nat} {c : Bool} (h : unwind s x k c = some s')
     (hs : ∀ f ∈ s.frames.take k, f.own = none) :
-    s'.cur = (if c then x :: s.cur else s.cur) ∧ droppedOf k s.frames = [] := by
-  have hd : droppedOf k s.frames = [] := droppedOf_clean (fun f hf => by rw [hs f hf]; rfl)
-  refine ⟨?_, hd⟩
+    s'.cur = (if c then x :: s.cur else s.cur) := by
   simp only [unwind] at h
   split at h
   · cases h
